@@ -1,6 +1,7 @@
 /-
   Driver for C11 / DataParser: runs Gama.DP.step (Model/DataParserRun.lean over the GENERATED tables and handler
   skeletons) on the SAX event lines printed by harness/c11_dataparser.cpp.
+  (also: `pd <kinds> <hex>` = PD.pureData after the extractions `kinds` (d = double, w = word) from the text)
   Input lines:  start <hexname> <line> <ae> <k> | stop <line> <k> | text <line> <hex> <k> | end
   where k is the kind of the error the implementation first recorded during the event (or -).  The outcomes of
   the data-dependent conditions inside a handler are not observable from outside: the driver takes the first
@@ -9,6 +10,7 @@
 -/
 import Gama.Proto
 import Gama.Model.DataParserRun
+import Gama.Model.PureData
 open Gama Gama.Proto Gama.DP
 
 def unhex (s : String) : Option (List Char) :=
@@ -95,6 +97,15 @@ def stepLine (d : DSt) (line : String) : DSt × String :=
     match ln.toNat?, unhex hx with
     | some l, some cs => feed d l (.text cs []) k
     | _, _ => (d, "bad-op")
+  | ["pd", kinds, hx] =>
+    -- `pure_data(istr >> …)`: kinds = a string over d (double) / w (word); answer: failbit eofbit before the call, its result
+    match unhex hx with
+    | some cs =>
+      let xs := kinds.toList.filterMap (fun c => if c == 'd' then some PD.Extraction.double else if c == 'w' then some PD.Extraction.word else none)
+      let st := xs.foldl (fun st x => x.run st) (PD.Stream.ofText cs)
+      let b (x : Bool) := if x then "1" else "0"
+      (d, s!"pd {b st.fail}{b st.eof} {b (PD.pureData st)}")
+    | none => (d, "bad-op")
   | ["end"] =>
     match outcome d.st with
     | .accepted => (d, "O ok")
